@@ -390,40 +390,107 @@ fn eval_ops_inner(req: &str) -> ImplOut {
         }
         NOp::New(..) | NOp::Del(..) => {}
         NOp::Upd(n, s, n2, s2, fnew) => {
-            if fnew.is_none() && s == s2 {
-                // a pure rename of the name: every user shows the new spelling, no value changes
-                out = out.tag("name-rename");
-                let shadow = pre_names.iter().any(|(x, _, _)| x.to_uppercase() == n2.to_uppercase())
-                    || pre_obs.iter().any(|c| c.formula.as_deref().map(|f| has_ident(f, n2)).unwrap_or(false));
-                if shadow {
-                    out = out.tag("name-rename:new-name-not-fresh");
-                }
-                for (po, qo) in pre_obs.iter().zip(post_obs.iter()) {
-                    if val_class(&po.value) != val_class(&qo.value) {
-                        let sig = if shadow { "c32:updname:capture-value-changed" } else { "c32:updname:value-changed" };
-                        out = out.fail(sig, &format!("rename {n}->{n2} scope {s:?}: {po:?} -> {qo:?}"));
+            // all four combinations (name and/or scope changed, or neither) and every scope pair
+            let keep = fnew.is_none();
+            let spelling_changes = n.to_uppercase() != n2.to_uppercase();
+            let scope_changes = s != s2;
+            out = out.tag(&format!(
+                "update-name:{}{}:{}->{}",
+                if spelling_changes { "name" } else { "" },
+                if scope_changes { "+scope" } else { "" },
+                if s.is_some() { "local" } else { "global" },
+                if s2.is_some() { if s.is_some() && scope_changes { "other-local" } else { "local" } } else { "global" },
+            ));
+            let sid = s.and_then(|k| pre_ids.get(k as usize).copied());
+            let sid2 = s2.and_then(|k| pre_ids.get(k as usize).copied());
+            // the stored entry that is being updated (last match, as the code does)
+            let is_target = |x: &str, xs: &Option<u32>| x.to_uppercase() == n.to_uppercase() && *xs == sid;
+            // does an identifier spelled `n` on that sheet denote the updated definition (local first, then global)?
+            let resolves_to_target = |sheet_id: u32| match sid {
+                Some(id) => sheet_id == id,
+                None => !pre_names.iter().any(|(x, xs, _)| x.to_uppercase() == n.to_uppercase() && *xs == Some(sheet_id)),
+            };
+            // after the update: is the definition (spelled n2, scope s2) what `n2` denotes on that sheet?
+            let visible_after = |sheet_id: u32| match sid2 {
+                Some(id2) => sheet_id == id2,
+                None => !pre_names
+                    .iter()
+                    .any(|(x, xs, _)| x.to_uppercase() == n2.to_uppercase() && *xs == Some(sheet_id) && !is_target(x, xs)),
+            };
+            let decoy_old = pre_names.iter().filter(|(x, xs, _)| x.to_uppercase() == n.to_uppercase() && !is_target(x, xs)).count();
+            let decoy_new = pre_names.iter().filter(|(x, xs, _)| x.to_uppercase() == n2.to_uppercase() && !is_target(x, xs)).count();
+            if decoy_old > 0 {
+                out = out.tag("update-name:decoy-with-old-spelling");
+            }
+            if spelling_changes && decoy_new > 0 {
+                out = out.tag("update-name:decoy-with-new-spelling");
+            }
+            for po in &pre_obs {
+                let pf = match &po.formula {
+                    Some(f) => f,
+                    None => continue, // data and spill cells
+                };
+                let qo = match post_obs.iter().find(|q| q.sheet_id == po.sheet_id && q.row == po.row && q.col == po.col) {
+                    Some(q) => q,
+                    None => {
+                        out = out.fail("c32:update-name:cell-lost", &format!("{po:?}"));
+                        continue;
                     }
-                }
-                // users: a formula that used the old spelling and whose value is unchanged must not show it any more
-                // unless another name of that spelling is visible from its sheet
-                // users = formulas on the sheets from which this very definition is visible
-                let scope_id = s.and_then(|k| pre_ids.get(k as usize).copied());
-                if n.to_uppercase() != n2.to_uppercase() {
-                    for qo in &post_obs {
-                        let visible = match scope_id {
-                            Some(id) => qo.sheet_id == id,
-                            None => !pre_names
-                                .iter()
-                                .any(|(x, sid, _)| x.to_uppercase() == n.to_uppercase() && *sid == Some(qo.sheet_id)),
-                        };
-                        if !visible {
+                };
+                let qf = qo.formula.clone().unwrap_or_default();
+                let value_same = val_class(&po.value) == val_class(&qo.value);
+                let what = format!("update ({n},{s:?}) -> ({n2},{s2:?}) keep-formula={keep}: sheet id {} R{}C{} {pf} = {} -> {qf} = {}", po.sheet_id, po.row, po.col, po.value, qo.value);
+                if has_ident(pf, n) && resolves_to_target(po.sheet_id) {
+                    // a user of the updated name
+                    out = out.tag("update-name:user");
+                    if spelling_changes {
+                        if has_ident(&qf, n) {
+                            out = out.fail("c32:update-name:user-not-renamed", &what);
+                            continue;
+                        } else if !has_ident(&qf, n2) {
+                            out = out.fail("c32:update-name:user-lost-name", &what);
                             continue;
                         }
-                        if let Some(fq) = &qo.formula {
-                            if has_ident(fq, n) {
-                                out = out.fail("c32:updname:user-not-updated", &format!("{fq} still uses {n}"));
-                            }
+                    } else if qf.to_uppercase() != pf.to_uppercase() {
+                        // (a change of case only re-spells the users)
+                        out = out.fail("c32:update-name:user-formula-changed", &what);
+                        continue;
+                    }
+                    if keep && !value_same {
+                        if visible_after(po.sheet_id) {
+                            // the same definition is still what the formula reads
+                            let sig = if spelling_changes && has_ident(pf, n2) {
+                                "c32:updname:capture-value-changed"
+                            } else {
+                                "c32:update-name:user-value-changed"
+                            };
+                            out = out.fail(sig, &what);
+                        } else if !scope_changes {
+                            // a pure rename must not change any value: the new spelling is shadowed on this sheet
+                            out = out.fail("c32:updname:capture-value-changed", &what);
                         }
+                    }
+                } else {
+                    // a formula using a decoy (same spelling, other definition) or not using the name at all
+                    if &qf != pf {
+                        let sig = if has_ident(pf, n) { "c32:update-name:decoy-renamed" } else { "c32:update-name:unrelated-formula-changed" };
+                        out = out.fail(sig, &what);
+                        continue;
+                    }
+                    if has_ident(pf, n2) {
+                        // it spells the new name: the updated definition may legitimately (scope change) or by
+                        // capture (finding F32d) become what it reads
+                        let bound_before = pre_names.iter().any(|(x, xs, _)| {
+                            x.to_uppercase() == n2.to_uppercase() && (xs.is_none() || *xs == Some(po.sheet_id))
+                        });
+                        if !bound_before {
+                            // an identifier that named nothing (#NAME?) now names the renamed definition: not a defect
+                            out = out.tag("update-name:free-identifier-bound");
+                        } else if !value_same && !scope_changes && keep && spelling_changes {
+                            out = out.fail("c32:updname:capture-value-changed", &what);
+                        }
+                    } else if !value_same {
+                        out = out.fail("c32:update-name:unrelated-value-changed", &what);
                     }
                 }
             }
@@ -548,6 +615,68 @@ fn gen_case(rng: &mut Rng, lang: &str, locale: &str) -> (Spec, Spec, NOp, NOp) {
     (sp, tw, op, top)
 }
 
+/// A workbook built around ONE defined name that is then updated: name only / scope only / both / neither,
+/// for every scope pair (global->local, local->global, local->other local, same), with decoys of the old and of
+/// the new spelling in the source and target scopes, and users / decoy users on every sheet.
+fn gen_update_case(rng: &mut Rng, lang: &str, locale: &str) -> (Spec, NOp) {
+    let sep = if locale == "en" { "," } else { ";" };
+    let sum = match lang {
+        "es" => "SUMA",
+        "fr" => "SOMME",
+        "de" => "SUMME",
+        "it" => "SOMMA",
+        _ => "SUM",
+    };
+    let sheets: Vec<String> = vec!["Sheet1".into(), ["Other", "My Data", "données"][rng.below(3) as usize].to_string(), "Third".into()];
+    let mut sp = Spec { lang: lang.into(), locale: locale.into(), sheets: sheets.clone(), cells: vec![], names: vec![] };
+    for sh in 0..3u32 {
+        for r in 1..=3 {
+            for c in 1..=2 {
+                sp.cells.push((sh, r, c, format!("{}", (sh as i64 + 1) * 100 + (r as i64) * 10 + c as i64)));
+            }
+        }
+    }
+    let old = ["ratio", "total", "Rate_1"][rng.below(3) as usize].to_string();
+    let new = ["factor", "néw", "Zed2"][rng.below(3) as usize].to_string();
+    let scope: Option<u32> = if rng.chance(1, 2) { None } else { Some(rng.below(3) as u32) };
+    // target scope: same, or any of the other three possibilities
+    let scope2: Option<u32> = if rng.chance(1, 3) {
+        scope
+    } else {
+        let all = [None, Some(0u32), Some(1), Some(2)];
+        let others: Vec<Option<u32>> = all.iter().filter(|x| **x != scope).cloned().collect();
+        others[rng.below(others.len() as u64) as usize]
+    };
+    let change_name = rng.chance(2, 3);
+    let new_name = if change_name { new.clone() } else if rng.chance(1, 4) { old.to_ascii_uppercase() } else { old.clone() };
+    let cell_of = |k: u32| format!("{}!${}${}", quote(&sheets[(k % 3) as usize]), ["A", "B"][(k / 3 % 2) as usize], 1 + k % 3);
+    // the name itself, then decoys: the old spelling in the other scopes (incl. the target scope), the new
+    // spelling in scopes other than the target one
+    sp.names.push((old.clone(), scope, cell_of(0)));
+    let all = [None, Some(0u32), Some(1), Some(2)];
+    for (k, sc) in all.iter().enumerate() {
+        if *sc != scope && rng.chance(2, 5) {
+            sp.names.push((old.clone(), *sc, cell_of(1 + k as u32)));
+        }
+    }
+    for (k, sc) in all.iter().enumerate() {
+        if *sc != scope2 && change_name && rng.chance(1, 4) {
+            sp.names.push((new.clone(), *sc, cell_of(5 + k as u32)));
+        }
+    }
+    // users and decoy users on every sheet; the name inside a two-argument call and bare
+    for sh in 0..3u32 {
+        sp.cells.push((sh, 5, 1, format!("={sum}({old}{sep}1)+{old}")));
+        sp.cells.push((sh, 6, 1, format!("={}*2", if rng.chance(1, 3) { old.to_ascii_uppercase() } else { old.clone() })));
+        sp.cells.push((sh, 7, 1, format!("={}!A1+1", quote(&sheets[((sh + 1) % 3) as usize]))));
+        if rng.chance(1, 3) {
+            sp.cells.push((sh, 8, 1, format!("={new}+0")));
+        }
+    }
+    let formula = if rng.chance(3, 4) { None } else { Some(cell_of(9)) };
+    (sp, NOp::Upd(old, scope, new_name, scope2, formula))
+}
+
 fn gen_ops(ctx: &Ctx, sink: &mut dyn FnMut(String)) {
     let mut rng = Rng::new(ctx.seed ^ 0xC32);
     let n = if ctx.tier == Tier::Quick { 40 } else { 400 };
@@ -572,6 +701,29 @@ fn gen_ops(ctx: &Ctx, sink: &mut dyn FnMut(String)) {
             emit2(&sp, &tw, &op, &op, "m", sink);
             emit2(&sp, &tw, &op, &op, "u", sink);
         }
+    }
+    // updates of one name in all combinations (name / scope / both / neither) with decoys
+    let n_upd = if ctx.tier == Tier::Quick { 120 } else { 3000 };
+    for k in 0..n_upd {
+        let lang = LANGS[k % LANGS.len()];
+        let locale = LOCALES[(k / LANGS.len() + k) % LOCALES.len()];
+        let mut r2 = rng.clone();
+        let (sp, op) = gen_update_case(&mut rng, lang, locale);
+        let (tw, top) = gen_update_case(&mut r2, "en", "en");
+        emit2(&sp, &tw, &op, &top, if k % 2 == 0 { "m" } else { "u" }, sink);
+    }
+    // the seeded witness: Sheet2-local `ratio` becomes the global `factor` in one update
+    {
+        let w = Spec {
+            lang: "en".into(),
+            locale: "en".into(),
+            sheets: vec!["Sheet1".into(), "Sheet2".into()],
+            cells: vec![(1, 1, 1, "7".into()), (1, 1, 2, "=ratio*2".into()), (0, 1, 2, "=ratio+1".into())],
+            names: vec![("ratio".into(), Some(1), "Sheet2!$A$1".into()), ("ratio".into(), None, "Sheet1!$C$1".into())],
+        };
+        let op = NOp::Upd("ratio".into(), Some(1), "factor".into(), None, None);
+        emit2(&w, &w, &op, &op, "m", sink);
+        emit2(&w, &w, &op, &op, "u", sink);
     }
     for _ in 0..n {
         for lang in LANGS {
